@@ -127,7 +127,7 @@ PROPS = {
               "transform twice on a guarded exact-size buffer; distinct by descriptor hash; non-trivial when m >= 2 "
               "and the input is non-zero"),
         require={"all": ["transforms_checked", "horner_validations", "impl:dispatch-native", "impl:dispatch-generic",
-                         "impl:ref-direct", "impl:avx2-direct", "impl:leaf-avx", "impl:leaf-ref", "impl:bfs16-ref", "impl:builtin-buffers",
+                         "impl:ref-direct", "impl:avx2-direct", "impl:leaf-avx", "impl:leaf-ref", "impl:bfs16-ref", "impl:builtin-buffers", "impl:naive",
                          "impl:rec16-ref"]},
         assumptions=["long-double FFT oracle (own twiddles by cosl/sinl), its rounding (about log2(m) 2^-64 relative) "
                      "added to the tolerance; validated per case against __float128 Horner evaluation at sampled outputs",
